@@ -169,7 +169,7 @@ _P = st.sampled_from([60, 61, 62])
 def _msg_abs():
     t = st.integers(0, 90)
     return st.one_of(
-        st.tuples(st.just("on"), _CH, _P, st.integers(1, 127), t),
+        st.tuples(st.just("on"), _CH, _P, st.one_of(st.integers(1, 127), st.sampled_from([0, 127])), t),
         st.tuples(st.just("off"), _CH, _P, t),
         st.tuples(st.just("off"), _CH, _P, t),
         st.tuples(st.just("ts"), _CH, st.integers(2, 5), st.just(4), t),
